@@ -3,6 +3,7 @@
 //! implementation answered).  The Lean driver replays the lines on the model
 //! and on the reference specification.
 mod rng;
+mod addr;
 mod httpstore;
 mod store;
 mod timeunit;
@@ -42,6 +43,7 @@ fn main() {
         "udpstore" => store::run(&mut out, seed, cases, maxops, &replay, false),
         "udpcodec" => udpcodec::run(&mut out, seed, cases, &replay),
         "validator" => validator::run(&mut out, seed, cases, &replay),
+        "addr" => addr::run(&mut out, seed, cases, &replay),
         "timeunit" => timeunit::run(&mut out, seed, cases),
         "httpstore" => store::run(&mut out, seed, cases, maxops, &replay, true),
         _ => {
